@@ -343,6 +343,7 @@ def check_commit(fx, rep):
         rep.undecided('R1-cachedb-commit', 'commit', 'impl DatabaseCommit for CacheDB not found')
         return
     rep.fn(f)
+    check_commit_states(fx, rep, f)
     # order of the tests on each account: touched, then selfdestructed, then created
     cfg = cfg_of(f)
     order = []
@@ -379,6 +380,65 @@ def check_commit(fx, rep):
         rep.ok('R1-cachedb-commit', 'present-values', 'stores present_value of each slot')
     else:
         rep.violation('R1-cachedb-commit', 'present-values', 'CacheDB::commit does not store the present value of the committed slots', f.where())
+
+
+def check_commit_states(fx, rep, f):
+    """the account_state written by CacheDB::commit, per kind of account and previous state.
+    Reading rule of CacheDB::storage / has_storage_ref: the wrapped database is asked unless the
+    state is StorageCleared or NotExisting; hence an account that does not exist (never did, or was
+    self-destructed) must not become `Touched`, or the wrapped database's stale slots reappear."""
+    ASN = 'revm::db::in_memory_db::AccountState'
+    adt = fx.adts.get(ASN)
+    if adt is None:
+        rep.undecided('R1-cachedb-commit', 'account-state', 'AccountState not found')
+        return
+    try:
+        rs = Symx(fx, max_paths=4000, snapshot_refs=True, pure={ACC + 'is_touched', ACC + 'is_selfdestructed', ACC + 'is_created'},
+                  inline={ASN + '::is_storage_cleared'}).run(f)
+    except Budget:
+        rep.undecided('R1-cachedb-commit', 'account-state', 'path budget', f.where())
+        return
+    variants = {v.get('discr', i): v['name'] for i, v in enumerate(adt['variants'])}
+    table = {}
+    for r in rs:
+        if not r.cut:
+            continue
+        kind = None
+        admits = set(variants)
+        for (sv, lit, _f, _b) in r.lits:
+            txt = render(sv)
+            tv = lit_truth(lit)
+            if txt.startswith('is_touched(') and tv is False:
+                kind = 'untouched'
+            elif txt.startswith('is_selfdestructed(') and tv:
+                kind = 'selfdestructed'
+            elif txt.startswith('is_created('):
+                kind = 'created' if tv else 'other'
+            elif 'account_state' in txt and txt.startswith('discr('):
+                if lit[0] == 'eq':
+                    admits &= {lit[1]}
+                elif lit[0] == 'ne':
+                    admits -= set(lit[1])
+        st = [v for (root, path), v in r.stores.items() if path and path[-1] == '.account_state']
+        new = st[0][2] if st and st[0][0] == 'agg' else (None if not st else '?')
+        for d in admits:
+            table[(kind, variants[d])] = new
+    want = {}
+    for old in variants.values():
+        want[('selfdestructed', old)] = 'NotExisting'
+        want[('created', old)] = 'StorageCleared'
+        want[('other', old)] = 'StorageCleared' if old in ('StorageCleared', 'NotExisting') else 'Touched'
+    n = 0
+    for key, w in sorted(want.items()):
+        got = table.get(key, 'no path')
+        n += 1
+        inst = 'account-state:%s:%s' % key
+        if got == w:
+            rep.ok('R1-cachedb-commit', inst, w, nontrivial=False)
+        else:
+            rep.violation('R1-cachedb-commit', inst, 'CacheDB::commit leaves a %s account whose state was %s in state %s; %s is required (CacheDB::storage asks the wrapped database unless the state is StorageCleared or NotExisting)' % (
+                'touched' if key[0] == 'other' else key[0], key[1], got, w), f.where())
+    rep.floor('R1-cachedb-states', n, 12)
 
 
 # ------------------------------------------------------------------ R3
@@ -458,6 +518,7 @@ def check_cache_account(fx, rep):
         else:
             rep.ok('R3-cache-account', m, '%s(old) stored and recorded; storage_was_destroyed=%d' % (sfn, wiped))
     rep.floor('R3-methods', n, 6)
+    check_storage_disposition(fx, rep)
     # when no transition is returned
     none_specs = {'selfdestruct': {LNE}, 'touch_empty_eip161': {LNE, D, DA}}
     for m, want in none_specs.items():
@@ -476,6 +537,71 @@ def check_cache_account(fx, rep):
             rep.ok('R3-cache-account', m + ':no-transition', 'exactly from %s' % sorted(want))
         else:
             rep.violation('R3-cache-account', m + ':no-transition', 'CacheAccount::%s returns no transition from %s; nothing changes only from %s' % (m, sorted(got), sorted(want)), f.where())
+
+
+def check_storage_disposition(fx, rep):
+    """what happens to the slots the cache already holds for the account: a change or a pre-EIP-161
+    touch keeps them (only changed slots arrive with the transaction), creation and destruction
+    drop them"""
+    def m_extend(sx, args, t):
+        old = sx.read_ref(args[0])
+        return ('__effects__', [(args[0], ('call', 'extended', (old, args[1]), None))], ('agg', 'tuple', None, (), ()))
+    keep = {'change': True, 'touch_create_pre_eip161': True, 'newly_created': False}
+    for m, want_keep in keep.items():
+        f = fx.fns.get(CA + m)
+        if f is None:
+            rep.undecided('R3-cache-account', m + ':cached-storage', 'not found')
+            continue
+        names = set()
+        for _, t in f.calls():
+            for nmx in t.names():
+                if nmx.endswith('::extend'):
+                    names.add(nmx)
+        try:
+            rs = Symx(fx, max_paths=600, models={nmx: m_extend for nmx in names}).run(f)
+        except Budget:
+            rep.undecided('R3-cache-account', m + ':cached-storage', 'path budget', f.where())
+            continue
+        verdicts = set()
+        for r in rs:
+            acc = [v for (root, path), v in r.stores.items() if root == ('arg', 1) and path == ('.account',)]
+            if not acc:
+                continue
+            a = acc[-1]
+            if not (a[0] == 'agg' and a[2] == 'Some'):
+                verdicts.add('account cleared')
+                continue
+            txt = render_deep(a)
+            had_old = "take(&('arg', 1).account)" in txt and 'storage' in txt.split("take(&('arg', 1).account)", 1)[1][:40]
+            # a path on which the cache had no account has nothing to keep
+            none_path = any(render(l[0]).startswith("discr(take(&('arg', 1).account))") and l[1] != ('eq', 1) for l in r.lits)
+            if none_path:
+                continue
+            verdicts.add('kept' if had_old else 'dropped')
+        want = {'kept'} if want_keep else {'dropped'}
+        if verdicts == want:
+            rep.ok('R3-cache-account', m + ':cached-storage', sorted(want)[0])
+        else:
+            rep.violation('R3-cache-account', m + ':cached-storage', 'CacheAccount::%s: the slots already cached for the account are %s; they must be %s (the transaction only carries the slots it changed)' % (
+                m, '/'.join(sorted(verdicts)) or 'untouched', 'kept' if want_keep else 'dropped'), f.where())
+
+
+def render_deep(v, depth=0):
+    """render without the depth cut of symx.render (values here are small)"""
+    if depth > 14:
+        return '…'
+    k_ = v[0]
+    if k_ == 'agg':
+        return '%s::%s{%s}' % (v[1].split('::')[-1], v[2], ', '.join('%s: %s' % (n, render_deep(x, depth + 1)) for n, x in zip(v[3] or range(len(v[4])), v[4])))
+    if k_ == 'call':
+        return '%s(%s)' % (v[1].split('::')[-1], ', '.join(render_deep(a, depth + 1) for a in v[2]))
+    if k_ == 'proj':
+        return render_deep(v[1], depth + 1) + ''.join(v[2])
+    if k_ == 'valref':
+        return '&' + render_deep(v[1], depth + 1)
+    if k_ == 'with':
+        return '%s with {%s}' % (render_deep(v[1], depth + 1), ', '.join('%s: %s' % (''.join(p), render_deep(x, depth + 1)) for p, x in v[2]))
+    return render(v)
 
 
 def strip(v):
